@@ -121,8 +121,25 @@ theorem checkPrev_rel (ar : Arith) (cfg : Cfg) (op op' : Op) {st st' : SwSt} (h 
 /-- union and xor never leave the loop early -/
 def noExit (op : Op) : Prop := op = .union ∨ op = .xor
 
-theorem sweepStep_rel (ar : Arith) (cfg : Cfg) (op op' : Op) (ho : noExit op) (ho' : noExit op') (rb sx : Rat)
-    {st st' : SwSt} (h : sSw st = sSw st') (event : Nat) :
+/-- the early-exit test of the loop: `Intersection` stops behind the smaller right bound, `Difference`
+    behind the subject's -/
+def exitsAt (op : Op) (rb sx : Rat) (p : Pt) : Bool :=
+  (op == .intersection && decide (p.x > rb)) || (op == .difference && decide (p.x > sx))
+
+/-- when the test fires the iteration only records the event and breaks -/
+theorem sweepStep_exit (ar : Arith) (cfg : Cfg) (op : Op) (rb sx : Rat) (st : SwSt) (event : Nat)
+    (hx : exitsAt op rb sx st.arena[event]!.point = true) :
+    sweepStep ar cfg op rb sx st event = .ok (true, { st with sorted := st.sorted.push event }) := by
+  unfold exitsAt at hx
+  unfold sweepStep
+  simp only [hx, if_true]
+  rfl
+
+/-- one iteration, any two operations whose exit test does not fire at this event -/
+theorem sweepStep_rel_of_no_exit (ar : Arith) (cfg : Cfg) (op op' : Op) (rb sx : Rat)
+    {st st' : SwSt} (h : sSw st = sSw st') (event : Nat)
+    (hx : exitsAt op rb sx st.arena[event]!.point = false)
+    (hx' : exitsAt op' rb sx st'.arena[event]!.point = false) :
     exMap (fun r : Bool × SwSt => (r.1, sSw r.2)) (sweepStep ar cfg op rb sx st event)
       = exMap (fun r : Bool × SwSt => (r.1, sSw r.2)) (sweepStep ar cfg op' rb sx st' event) := by
   obtain ⟨a, hp, ln, so, po, bu⟩ := st
@@ -130,16 +147,13 @@ theorem sweepStep_rel (ar : Arith) (cfg : Cfg) (op op' : Op) (ho : noExit op) (h
   rw [sSw_eq_iff] at h
   obtain ⟨ha, rfl, rfl, rfl, rfl, rfl⟩ := h
   simp only at ha
+  simp only [exitsAt] at hx hx'
   have hev := get_rel ha event
   have hpt : a[event]!.point = a'[event]!.point := (fields_of_stripResult_eq hev).1
   have hl : a[event]!.left = a'[event]!.left := (fields_of_stripResult_eq hev).2.1
   have hot : a[event]!.other = a'[event]!.other := (fields_of_stripResult_eq hev).2.2.2.1
-  have hex : ∀ o : Op, noExit o → ∀ (x r s : Rat),
-      ((o == .intersection && decide (x > r)) || (o == .difference && decide (x > s))) = false := by
-    intro o hno x r s
-    rcases hno with rfl | rfl <;> simp
   unfold sweepStep
-  simp only [hex op ho, hex op' ho', Bool.false_eq_true, if_false, hl, hot, keyOk_rel ha, segCmp_rel ar cfg.dbg ha]
+  simp only [hx, hx', Bool.false_eq_true, if_false, hl, hot, keyOk_rel ha, segCmp_rel ar cfg.dbg ha]
   split
   · -- left event
     split
@@ -223,6 +237,15 @@ theorem sweepStep_rel (ar : Arith) (cfg : Cfg) (op op' : Op) (ho : noExit op) (h
         exact this
 
 
+
+theorem exitsAt_noExit (op : Op) (ho : noExit op) (rb sx : Rat) (p : Pt) : exitsAt op rb sx p = false := by
+  rcases ho with rfl | rfl <;> simp [exitsAt]
+
+theorem sweepStep_rel (ar : Arith) (cfg : Cfg) (op op' : Op) (ho : noExit op) (ho' : noExit op') (rb sx : Rat)
+    {st st' : SwSt} (h : sSw st = sSw st') (event : Nat) :
+    exMap (fun r : Bool × SwSt => (r.1, sSw r.2)) (sweepStep ar cfg op rb sx st event)
+      = exMap (fun r : Bool × SwSt => (r.1, sSw r.2)) (sweepStep ar cfg op' rb sx st' event) :=
+  sweepStep_rel_of_no_exit ar cfg op op' rb sx h event (exitsAt_noExit op ho _ _ _) (exitsAt_noExit op' ho' _ _ _)
 
 theorem sweepLoop_rel (ar : Arith) (cfg : Cfg) (op op' : Op) (ho : noExit op) (ho' : noExit op') (rb sx : Rat) :
     ∀ (fuel : Nat) (st st' : SwSt), sSw st = sSw st' →
